@@ -4,6 +4,7 @@ C10 — static well-formedness rules are enforced and reported truthfully.
 -/
 import KikiVerif.Model.Validate
 import KikiVerif.Proofs.Validate
+import KikiVerif.Proofs.Truthful
 
 namespace KikiVerif.C10
 open KikiVerif KikiVerif.Validate KikiVerif.Ast
@@ -58,7 +59,31 @@ example :
     validateAst ⟨[.start ⟨"S".toList, 6⟩, s, t]⟩ = .err (.undefinedNonterminal "A".toList 20) := by
   rfl
 
+/-- **C10, "reported truthfully"**: whatever error `validate_ast` returns — with any number and combination
+of simultaneous violations in the file — the variant, the name or symbol sequence and the byte positions it
+carries describe a violation really present at those positions (`Spec.Truthful`: e.g. for `nameClash n p q`
+the top-level definitions of the file contain `n` defined at `p` and, later, `n` defined at `q`; for
+`undefinedNonterminal n p` an identifier `n` at `p` is used as a field symbol or start symbol and `n` is not
+among the declared nonterminals — a terminal of that name does not count) -/
+theorem C10_err_truthful (f : File) (e : KErr) (h : validateAst f = .err e) : Spec.Truthful f e :=
+  Validate.validate_err_truthful h
+
+/-- the two specifications are consistent: a truthful error report is possible only for a file that is not
+well-formed -/
+theorem C10_truthful_not_wellFormed (f : File) (e : KErr) (h : Spec.Truthful f e) : ¬ Spec.WellFormed f :=
+  Validate.truthful_not_wellFormed h
+
+/-- **C10, both directions**: validation never panics and accepts exactly the well-formed files -/
+theorem C10_ok_iff_wellFormed (f : File) : (∃ v, validateAst f = .ok v) ↔ Spec.WellFormed f :=
+  ⟨fun ⟨_, h⟩ => Validate.validate_ok_wellFormed h, Validate.wellFormed_validate_ok⟩
+
+theorem C10_no_panic (f : File) (s : String) : validateAst f ≠ .panic s := Validate.validate_no_panic f s
+
 end KikiVerif.C10
 
+#print axioms KikiVerif.C10.C10_err_truthful
+#print axioms KikiVerif.C10.C10_truthful_not_wellFormed
+#print axioms KikiVerif.C10.C10_ok_iff_wellFormed
+#print axioms KikiVerif.C10.C10_no_panic
 #print axioms KikiVerif.C10.C10_one_start_one_terminal
 #print axioms KikiVerif.C10.C10_ok_sound
